@@ -523,7 +523,9 @@ ReadBatchGoto:
 	}
 
 	idx := 0
-	for idx <= len(buf)-rootHashRecordSize() {
+	// Records can be shorter than a root hash record (the record of an empty or one byte chunk),
+	// scan up to the last position at which the smallest valid record could start.
+	for idx <= len(buf)-(journalRecLenSz+journalRecChecksumSz) {
 		sz := readUint32(buf[idx : idx+uint32Size])
 		if sz > 0 && sz <= journalWriterBuffSize {
 			// in the right range.
